@@ -253,3 +253,44 @@ impl RecvHandler {
             .unwrap_or_else(|e| warn!(error = %e,"Could not send packet to handler"));
     }
 }
+
+#[cfg(discv5_verif)]
+impl RecvHandler {
+    /// Verification hook: a receive handler that is not spawned; the caller feeds it datagrams
+    /// with `verif_handle_inbound` and reads what it forwards to the packet handler.
+    #[allow(clippy::type_complexity)]
+    pub(crate) fn verif_new(
+        recv: Arc<UdpSocket>,
+        filter_config: FilterConfig,
+        ban_duration: Option<Duration>,
+        local_node_id: enr::NodeId,
+        expected_responses: Arc<RwLock<HashMap<SocketAddr, usize>>>,
+    ) -> (Self, mpsc::Receiver<RecvPacket>, oneshot::Sender<()>) {
+        let (exit_sender, exit) = oneshot::channel();
+        let (handler, handler_recv) = mpsc::channel(30);
+        let recv_handler = RecvHandler {
+            recv,
+            second_recv: None,
+            expected_responses,
+            filter: Filter::new(filter_config, ban_duration),
+            node_id: local_node_id,
+            protocol_identity: ProtocolIdentity::default(),
+            handler,
+            exit,
+        };
+        (recv_handler, handler_recv, exit_sender)
+    }
+
+    /// Verification hook: `handle_inbound` for a datagram that the socket would have received.
+    pub(crate) async fn verif_handle_inbound(&mut self, src_address: SocketAddr, data: &[u8]) {
+        let mut buffer = [0; MAX_PACKET_SIZE];
+        let length = data.len().min(MAX_PACKET_SIZE);
+        buffer[..length].copy_from_slice(&data[..length]);
+        self.handle_inbound(src_address, length, &buffer).await
+    }
+
+    /// Verification hook: the packet filter of this handler.
+    pub(crate) fn verif_filter(&mut self) -> &mut Filter {
+        &mut self.filter
+    }
+}
